@@ -64,25 +64,26 @@ def get_all_axes(ds):
         set of strings containing the names of the spatial axes in the dataset
 
     """
-    axes = set()
+    # insertion-ordered (iterating the result must not depend on the string hash seed)
+    axes = {}
 
     sgrid_grid_name = get_sgrid_grid(ds)
     ndims = ds[sgrid_grid_name].attrs["topology_dimension"]
     if ndims == 1:
-        axes.update(["X"])
+        axes.update(dict.fromkeys(["X"]))
     elif ndims == 2:
-        axes.update(["X", "Y"])
+        axes.update(dict.fromkeys(["X", "Y"]))
         # Check for a vertical dimension
         if "vertical_dimensions" in ds[sgrid_grid_name].attrs:
-            axes.update(["Z"])
+            axes.update(dict.fromkeys(["Z"]))
     elif ndims == 3:
-        axes.update(["X", "Y", "Z"])
+        axes.update(dict.fromkeys(["X", "Y", "Z"]))
     else:
         raise ValueError(
             f"SGRID expected dataset with 1-3 spatial dimensions but "
             f"got {ndims} in variable '{sgrid_grid_name}'."
         )
-    return axes
+    return axes.keys()
 
 
 def get_axis_positions_and_coords(ds, axis_name):
